@@ -51,7 +51,7 @@ Accts  == {0, 1}
 VARIABLES
     st,       \* [Coin -> -1 (not received) | 0 (unconfirmed) | 1..MaxTip (confirming height)]
     spentBy,  \* [Coin -> 0..MaxSends]  created transaction spending it (0 = none)
-    sends,    \* Seq of [acct, scope, ins, change, status]; status 0 (unconfirmed) | height
+    sends,    \* Seq of [acct, scope, ins, change, status]; status 0 (unconfirmed) | height | -1 (forgotten)
     tip,
     locked,   \* coins locked in memory (LockOutpoint)
     leased,   \* [Coin -> 0..2] lease holder
@@ -231,6 +231,26 @@ Restart ==
     /\ UNCHANGED <<st, spentBy, sends, tip, leased>>
     /\ Step("Restart", <<>>, "ok")
 
+(* Restart during which the backend rejects the re-broadcast of the still     *)
+(* unconfirmed created transaction i for a reason the wallet has no special   *)
+(* case for: that transaction and every unconfirmed transaction spending its  *)
+(* change are forgotten (inputs spendable again, change gone); every other    *)
+(* unconfirmed created transaction is still offered.                          *)
+RECURSIVE Doomed(_)
+Doomed(F) ==
+    LET more == {j \in 1..Len(sends) : sends[j].status = 0 /\ j \notin F
+                                         /\ \E k \in F : (NBase + k) \in sends[j].ins}
+    IN  IF more = {} THEN F ELSE Doomed(F \cup more)
+RestartRej(i) ==
+    /\ i \in 1..Len(sends) /\ sends[i].status = 0
+    /\ LET F == Doomed({i}) IN
+       /\ sends' = [k \in 1..Len(sends) |-> IF k \in F THEN [sends[k] EXCEPT !.status = -1] ELSE sends[k]]
+       /\ spentBy' = [c \in Coin |-> IF spentBy[c] \in F THEN 0 ELSE spentBy[c]]
+       /\ st' = [c \in Coin |-> IF IsChange(c) /\ (c - NBase) \in F THEN -1 ELSE st[c]]
+       /\ locked' = {}
+       /\ UNCHANGED <<tip, leased>>
+       /\ Step("RestartRej", [n |-> i, forgotten |-> F], "ok")
+
 Next ==
     \/ On("Receive") /\ \E c \in Base : Receive(c)
     \/ On("Mine") /\ \E cbs \in SUBSET Base : Mine(cbs)
@@ -242,6 +262,7 @@ Next ==
     \/ On("FundOwn") /\ \E acct \in Accts, scope \in Scopes, c \in Base : FundOwn(acct, scope, 1, {c})
     \/ On("DryRun") /\ \E acct \in Accts, scope \in Scopes, mc \in 0..2 : DryRun(acct, scope, mc)
     \/ On("Restart") /\ Restart
+    \/ On("RestartRej") /\ \E i \in 1..MaxSends : RestartRej(i)
 
 Spec == Init /\ [][Next]_vars
 ----------------------------------------------------------------------------
@@ -252,13 +273,14 @@ TypeOK ==
 (* C06 on the design: no coin is ever spent by two created transactions, a   *)
 (* created transaction only spends coins that were eligible for its request, *)
 (* and spent coins are never eligible again.                                 *)
+Live(i) == sends[i].status >= 0          \* not forgotten after a rejected re-broadcast
 NoDoubleSpend ==
-    \A i, j \in 1..Len(sends) : i # j => sends[i].ins \cap sends[j].ins = {}
+    \A i, j \in 1..Len(sends) : (i # j /\ Live(i) /\ Live(j)) => sends[i].ins \cap sends[j].ins = {}
 SpentNotEligible ==
     \A c \in Coin : spentBy[c] # 0 =>
         \A acct \in Accts, scope \in Scopes, mc \in 0..2 : c \notin Eligible(acct, scope, mc)
 InputsWereOwn ==
-    \A i \in 1..Len(sends) : \A c \in sends[i].ins :
+    \A i \in 1..Len(sends) : Live(i) => \A c \in sends[i].ins :
         Attr(c).acct = sends[i].acct /\ Attr(c).scope = sends[i].scope /\ spentBy[c] = i
 LockedLeasedNotEligible ==
     \A c \in Coin : (c \in locked \/ leased[c] # 0) =>
